@@ -1,4 +1,5 @@
-"""Self-tests run at the start of every check: the explorer must find a seeded bug and stay silent on its repair."""
+"""Self-tests run at the start of every check: the explorer must find a seeded bug and stay silent on its repair, and the
+simulated primitives must agree with the real ones on every single-thread operation sequence up to length 4."""
 from . import explore as _ex
 from . import sched as _sched
 
@@ -14,4 +15,11 @@ def run(pool):
         raise _sched.EngineError(f'selftest: false alarm on the locked counter: {by[(True, 2)].violations}')
     if by[(True, 2)].execs < 20:
         raise _sched.EngineError('selftest: locked counter explored suspiciously few schedules')
-    return stats
+    diff = _ex.explore('checks._diff', ['diff'], 'quick', pool=pool)
+    for cs in diff:
+        if cs.violations:
+            sig, ent = next(iter(cs.violations.items()))
+            raise _sched.EngineError(f'selftest: simulated primitive disagrees with the real one: {ent["detail"]}')
+        if cs.execs < 100:
+            raise _sched.EngineError('selftest: differential primitive test ran suspiciously few cases')
+    return stats + diff
